@@ -2,7 +2,7 @@
    The theorems are about every path (every interleaving of producer, workers
    and result consumption, any number of workers) of Model/SchedHier.v; they are
    restated here from Props/SchedHierProps.v (proofs in Proofs/Sched/). *)
-From DD Require Import Model.SchedHier Props.SchedHierProps.
+From DD Require Import Model.SchedHier Props.SchedHierProps Model.SchedDdmin Props.SchedDdminProps.
 
 (* a result is adopted only if it was computed against the current input and accepted *)
 Theorem c05_no_stale : ltac:(let t := type of no_stale in exact t).
@@ -28,3 +28,23 @@ Theorem c05_file_is_last : ltac:(let t := type of file_is_last in exact t).
 Proof. exact file_is_last. Qed.
 Print Assumptions c05_file_is_last.
 About no_stale. About chain. About file_is_last.
+
+(* ---- the ddmin strategy (Model/SchedDdmin.v: _check_par / _check_seq of one task generator) ---- *)
+
+(* a success is adopted only if it was computed against the current input; later successes of the round are ignored *)
+Theorem c05_ddmin_no_stale : ltac:(let t := type of d_no_stale in exact t).
+Proof. exact d_no_stale. Qed.
+Print Assumptions c05_ddmin_no_stale.
+
+Theorem c05_ddmin_chain : ltac:(let t := type of d_chain in exact t).
+Proof. exact d_chain. Qed.
+Print Assumptions c05_ddmin_chain.
+
+Theorem c05_ddmin_written_was_checked : ltac:(let t := type of d_written_was_checked in exact t).
+Proof. exact d_written_was_checked. Qed.
+Print Assumptions c05_ddmin_written_was_checked.
+
+Theorem c05_ddmin_file_is_last : ltac:(let t := type of d_file_is_last in exact t).
+Proof. exact d_file_is_last. Qed.
+Print Assumptions c05_ddmin_file_is_last.
+About d_no_stale. About d_chain.
